@@ -17,7 +17,7 @@ Theorems:
                                             flat list copies nothing (and leaves it unshared)
 * `shared_mutation_copies_once`, `total_cost_linear`
 -/
-import NoulithModel.Lemmas.HeapCost
+import NoulithModel.Lemmas.HeapNested
 
 namespace Noulith.C02
 open Noulith.RcHeap
@@ -483,5 +483,146 @@ def unshared_nested_sequence_statement : Prop :=
     FullUniq s.h (cellOf s x) →
     (∀ st ∈ stmts, (∃ p n, st = .setIdx x p (.atom (.int n))) ∨ (∃ y p, y ≠ x ∧ st = .pop y x p)) →
     (RcHeap.run s stmts).h.copied = s.h.copied
+
+/-! ### whole sequences on a fully unshared NESTED value -/
+
+theorem reach_child {h : Heap} {id : Nat} {c w : Val} (hc : c ∈ payloadOf h id) (r : Reach h [c] w) :
+    Reach h [.ref id] w := by
+  induction r with
+  | root hm =>
+    cases List.mem_singleton.1 hm
+    exact .step (.root (by simp)) hc
+  | step _ hm ih => exact .step ih hm
+
+/-- on a represented value, "every reachable allocation has count 1" is the structural `UniqN` -/
+theorem uniqN_of_fullUniq : ∀ (k : Nat) (h : Heap) (v : Val) (t : Tree), RepN k h v t → FullUniq h v → UniqN k h v := by
+  intro k
+  induction k with
+  | zero => intro h v t r _; cases v <;> cases t <;> simp at r ⊢
+  | succ k ih =>
+    intro h v t r fu
+    cases v with
+    | null => simp
+    | int n => simp
+    | ref id =>
+      obtain ⟨k1, ts, hk1, rfl, _, a⟩ := RepN_ref_inv r
+      have hk : k1 = k := by omega
+      subst hk
+      simp only [UniqN_succ_ref]
+      refine ⟨fu id (.root (by simp)), ?_⟩
+      have : ∀ (vs : List Val) (ts : List Tree), All2 (RepN k1 h) vs ts → (∀ c ∈ vs, c ∈ payloadOf h id) →
+          ∀ c ∈ vs, UniqN k1 h c := by
+        intro vs
+        induction vs with
+        | nil => intro ts _ _ c hc; simp at hc
+        | cons v vs ihv =>
+          intro ts a hsub c hc
+          cases ts with
+          | nil => simp at a
+          | cons t ts =>
+            simp only [All2.cons_cons] at a
+            rcases List.mem_cons.1 hc with rfl | hc'
+            · exact ih h _ t a.1 (fun m rm => fu m (reach_child (hsub _ (by simp)) rm))
+            · exact ihv ts a.2 (fun c hc => hsub c (by simp [hc])) c hc'
+      exact this _ _ a (fun c hc => hc)
+
+/-- variable `x` holds a fully unshared (arbitrarily nested) value -/
+def NestedUniq (s : State) (x : Nat) : Prop := ∃ k, UniqN k s.h (cellOf s x)
+
+/-- in-place-eligible statements on a nested value held by `x` -/
+inductive NestedStmt (x : Nat) : Stmt → Prop
+  | setIdx (p : List Int) (n : Int) : NestedStmt x (.setIdx x p (.atom (.int n)))
+  | pop (y : Nat) (p : List Int) : y ≠ x → NestedStmt x (.pop y x p)
+
+/-- one eligible statement on a fully unshared nested value copies nothing and leaves it fully unshared -/
+theorem nested_step (s : State) (σ : Store) (x : Nat) (st : Stmt) (R : Refines s σ) (hx : x < s.cells.length)
+    (nu : NestedUniq s x) (hst : NestedStmt x st) :
+    (step s st).1.h.copied = s.h.copied ∧ NestedUniq (step s st).1 x := by
+  obtain ⟨k, uk⟩ := nu
+  have hd : declared s x = true := by simp [declared, hx]
+  have rx : Rep s.h (cellOf s x) (σ.getD x .null) := All2.getD x _ _ R.sim hx
+  cases hst with
+  | setIdx p n =>
+    refine ⟨index_assignment_copies_nothing s σ x p (.int n) (by intro y; simp) R hx (UniqN_pathUniq p uk), ?_⟩
+    have i1 : Inv s.h (cellOf s x :: [Val.int n] ++ s.cells.set x .null) := by
+      have := inv_take_cell (T := []) hx (by simpa using R.inv)
+      exact this.congr (fun k => by simp [cellOf, occ_cons])
+    have W := walk_uniq (setLeaf_spec (.int n) (.int n)) (setLeaf_leafU (.int n) (by intro j; simp)) p s.h
+      (cellOf s x) (s.cells.set x .null) _ k i1 rx (by simpa using Rep_int n) uk
+    simp only [step, hd, if_true, withCell, evalRhs, evalAtom, setIndex]
+    refine ⟨k, ?_⟩
+    by_cases hok : (walk (setLeaf (Val.int n)) s.h (cellOf s x) p).ok = true
+    · simp only [hok, if_true, cellOf_set_same _ _ _ _ hx]; exact W.1
+    · simp only [hok, if_false, cellOf_set_same _ _ _ _ hx, drop_atom _ (Val.int n) (by intro j; simp)]; exact W.1
+  | pop y p hne =>
+    by_cases hy : y < s.cells.length
+    · have hd2 : (declared s x = true ∧ declared s y = true) := by simp [declared, hx, hy]
+      refine ⟨pop_copies_nothing s σ y x p R hx hy (UniqN_pathUniq p uk) (UniqN_endUniq p uk), ?_⟩
+      have i1 : Inv s.h (cellOf s x :: [] ++ s.cells.set x .null) := by
+        have := inv_take_cell (T := []) hx (by simpa using R.inv)
+        exact this.congr (fun k => by simp [cellOf])
+      have W := walk_uniq popLeaf_spec popLeaf_leafU p s.h (cellOf s x) (s.cells.set x .null) _ k i1 rx trivial uk
+      obtain ⟨_, hlen, WW⟩ := withCell_walk popLeaf_spec (T := []) p hx (by simpa using R.inv) R.sim
+      simp only [step, hd2, and_self, if_true]
+      simp only [withCell] at WW ⊢
+      obtain ⟨w, hw⟩ : ∃ w, walk popLeaf s.h (cellOf s x) p = w := ⟨_, rfl⟩
+      simp only [hw] at W WW ⊢
+      cases hok : w.ok with
+      | false =>
+        simp only [Bool.false_eq_true, if_false]
+        exact ⟨k, by rw [cellOf_set_same _ _ _ _ hx]; exact W.1⟩
+      | true =>
+        simp only [if_true]
+        cases hm : Store.modPath Store.popφ (σ.getD x .null) p with
+        | none => rw [hm] at WW; simp [hok] at WW
+        | some tr =>
+          obtain ⟨t', r⟩ := tr
+          rw [hm] at WW
+          -- writing y drops its old value next to the (fully unshared) new value of x
+          have iy : Inv w.h ((s.cells.set x w.v).getD y .null :: (w.r :: (s.cells.set x w.v).set y .null)) := by
+            have := inv_take_cell (T := [w.r]) (x := y) (cells := s.cells.set x w.v) (by simpa using hy)
+              (by simpa using WW.2.1)
+            simpa using this
+          have hmem : w.v ∈ w.r :: (s.cells.set x w.v).set y .null := by
+            refine List.mem_cons_of_mem _ ?_
+            have e1 : ((s.cells.set x w.v).set y .null).getD x .null = w.v := by
+              rw [getD_set_ne _ _ _ _ _ hne]; exact getD_set_self _ _ _ _ hx
+            have := getD_mem (l := (s.cells.set x w.v).set y .null) (j := x) Val.null (by simpa using hx)
+            rwa [e1] at this
+          refine ⟨k, ?_⟩
+          simp only [writeCell]
+          rw [cellOf_set_ne _ _ _ _ _ hne, getD_set_self _ _ _ _ hx]
+          exact drop_uniq iy hmem W.1
+    · have hd2 : ¬ (declared s x = true ∧ declared s y = true) := by simp [declared, hy]
+      simp only [step, hd2, if_false]
+      exact ⟨trivial, k, uk⟩
+
+theorem nested_run (x : Nat) (stmts : List Stmt) :
+    ∀ (s : State) (σ : Store), Refines s σ → x < s.cells.length → NestedUniq s x →
+      (∀ st ∈ stmts, NestedStmt x st) →
+      (RcHeap.run s stmts).h.copied = s.h.copied ∧ NestedUniq (RcHeap.run s stmts) x := by
+  induction stmts with
+  | nil => intro s σ _ _ nu _; exact ⟨rfl, nu⟩
+  | cons st rest ih =>
+    intro s σ R hx nu hall
+    obtain ⟨c1, nu1⟩ := nested_step s σ x st R hx nu (hall st (by simp))
+    have R1 := (step_ok R st).1
+    have hx1 : x < (step s st).1.cells.length := by rw [step_cells_length R]; exact hx
+    obtain ⟨c2, nu2⟩ := ih _ _ R1 hx1 nu1 (fun st' h' => hall st' (by simp [h']))
+    exact ⟨by simp only [RcHeap.run]; rw [c2, c1], nu2⟩
+
+/-- **`unshared_nested_sequence`**: a whole sequence of in-place-eligible statements (index assignments
+of ints at ANY index paths, pops at any paths) on a fully unshared NESTED value copies nothing: the
+invariant "every allocation reachable from the variable has count 1" is preserved by every eligible
+statement (`nested_step`), and under it every `make_mut` on every path is in place. -/
+theorem unshared_nested_sequence : unshared_nested_sequence_statement := by
+  intro x stmts s σ R hx fu hall
+  have rx : Rep s.h (cellOf s x) (σ.getD x .null) := All2.getD x _ _ R.sim hx
+  obtain ⟨k, rk⟩ := rx
+  have nu : NestedUniq s x := ⟨k, uniqN_of_fullUniq k _ _ _ rk fu⟩
+  refine (nested_run x stmts s σ R hx nu (fun st hst => ?_)).1
+  rcases hall st hst with ⟨p, n, rfl⟩ | ⟨y, p, hne, rfl⟩
+  · exact .setIdx p n
+  · exact .pop y p hne
 
 end Noulith.C02
